@@ -41,7 +41,8 @@ Inductive bop :=
 | BSetRoot (hs : Z)
 | BRead (l : loc) (o : op)                         (* read-side op; [l] is used by root / rlimit only *)
 | BRoundTrip (dcap pcap fuel : Z)                  (* walk of the root over the current bytes, fresh limits *)
-| BDump (l : loc).
+| BDump (l : loc)
+| BReopen.                                         (* Marshal; Unmarshal / Decoder.Decode; keep building in the decoded message *)
 
 Inductive bval :=
 | BV (v : oval)
@@ -188,6 +189,13 @@ Definition bstep (e : benv) (st : bstate) (o : bop) : option bstate * bval :=
     let c := mkCfg 0 0 true true in
     let '(r, rl) := root c (bm_data m) (init_rlimit c) in
     (Some st, BVTree (fst (walk c all_fixes (bm_data m) dcap pcap (Z.to_nat fuel) rl r)))
+  | BReopen =>
+    (* the decoded message: the same segment bytes in a demuxed multi-segment arena whose
+       buffers have cap = len (message.go demuxArena: data[:sz:sz]), an empty capability table
+       and a fresh read limit; handles into the old message are dropped (null) *)
+    let m1 := mkBM AMulti (map (fun d => mkBS d (zlen d)) (bm_data m)) [] (init_rlimit (e_cfgd e)) in
+    (Some (mkBSt (w_set_dst w m1) (map (fun h => match fst h with InDst => (InDst, nullPtr) | InSrc => h end) (st_h st))),
+     BVUnit (Ok tt))
   | BDump l =>
     match l with
     | InDst =>
